@@ -100,11 +100,11 @@ func TestC20(t *testing.T) {
 
 	h.RunProp(t, clearGrid, 0)
 	h.RunProp(t, limitGrid, 0)
-	h.RunProp(t, restart, h.N(600, 4000))
-	h.RunProp(t, restartCtl, h.N(150, 1000))
-	h.RunProp(t, crash, h.N(70, 350))
-	h.RunProp(t, crashExit, h.N(25, 60))
-	h.RunProp(t, settings, h.N(20, 90))
+	h.RunProp(t, restart, h.N(600, 2500))
+	h.RunProp(t, restartCtl, h.N(150, 700))
+	h.RunProp(t, crash, h.N(70, 220))
+	h.RunProp(t, crashExit, h.N(25, 40))
+	h.RunProp(t, settings, h.N(20, 60))
 
 	if h.C.Shard != 0 {
 		return // the enumerations are done by shard 0 only
